@@ -5,7 +5,7 @@ from vlib import songgen
 
 ID = "C07"
 LEAN_MODULE = "Ctrmml.Properties.C07"
-THEOREMS = ["C07_multiples_of_147", "C07_tempo_closed_form", "C07_tempo_step_le_two", "C07_play_step_grid",
+THEOREMS = ["C07_multiples_of_147", "C07_tempo_closed_form", "C07_tempo_step_le_two", "C07_play_step_grid", "C07_log_on_grid",
             "C07_attenuation_antitone", "C07_pitch_tables_sound", "C07_short_note_counterexample"]
 LEVEL = "proof"
 STREAM = "vgm.bytes"
@@ -14,7 +14,7 @@ CASE_SECONDS = 20
 TECHNIQUE = ("Lean 4 proofs over the executable model of MD_Driver/MD_Channel/Platform::vgm_export (plain subset) + byte-exact differential "
              "correspondence of whole VGM files + independent frame-schedule oracle (Spec/Schedule + Spec/VgmParse) on the real files")
 LEVEL_TEXT = ("Machine-checked theorems over Model/MdDriver.lean: the play_step scheduler stays on the 147-sample grid and fires one sequence "
-              "update every 735 samples (no floating-point assumption), closed form of the 8-bit tempo accumulator, antitonicity of the FM/PSG "
+              "update every 735 samples, so that every register write of the exported log sits on the 60 Hz grid (no floating-point assumption), closed form of the 8-bit tempo accumulator, antitonicity of the FM/PSG "
               "attenuation formulas in the volume setting, soundness of the regenerated frequency tables. The whole-log statements (key-on/"
               "key-off frame, pitch value, extent) are checked by the schedule oracle on every real export; the model reproduces every real "
               "file byte for byte.")
